@@ -144,6 +144,7 @@ class Models:
             (r"^SanType::tag$", r"::tag$", r"^&SanType$"),
             (r"^write_x509_extension::<", None, None),
             (r"^OtherNameValue::write_der$", r"::write_der$", r"^&OtherNameValue$"),
+            (r"^(certificate::)?NameConstraints::is_empty$", r"::is_empty$", r"^&NameConstraints$"),
         ]
         for pat, name_re, a0 in table:
             if re.search(pat, c):
@@ -227,6 +228,9 @@ class Models:
             return one(Opaque("result", (ok, Opaque("der"), Opaque("error"))))
         if re.match(r"^<Result<.*> as Try>::branch$", c):
             r = args[0]
+            if isinstance(r, Agg) and r.kind.startswith("variant:"):
+                idx = int(r.kind.split(":")[1])
+                return one(EnumV("ControlFlow", z3.IntVal(idx), [("Continue", [r.fields[0].v]), ("Break", [Opaque("residual", r.fields[0].v)])]))
             if not (isinstance(r, Opaque) and r.what == "result"):
                 raise Unsupported("Try::branch on " + type(r).__name__)
             ok = r.data[0]
@@ -555,9 +559,13 @@ class Models:
         if isinstance(a, Opaque):
             if a.what in ("tag", "oid-const", "str", "const"):
                 return (a.what, a.data)
-            if a.what in ("bytes-of", "vec", "signature", "msg"):
+            if a.what in ("bytes-of", "vec", "signature", "msg", "derived-key-id", "public_key_der", "clone-of"):
                 def desc(x):
                     x = deref(x)
+                    if isinstance(x, EnumV):
+                        return x.name + "[" + ";".join(n + ":" + ",".join(desc(p) for p in pl) for (n, pl) in x.variants) + "]"
+                    if isinstance(x, Agg):
+                        return x.kind + "{" + ",".join(desc(c.v) for c in x.fields) + "}"
                     if isinstance(x, Opaque):
                         return f"{x.what}({desc(x.data)})" if x.data is not None else x.what
                     if isinstance(x, tuple):
